@@ -1864,9 +1864,9 @@ func (query *Query) IsDual() bool {
 }
 
 func RegexComparison(left any, pattern string) (bool, error) {
-	regExpr := strings.ReplaceAll(strings.ToLower(pattern), "_", ".")
+	regExpr := strings.ReplaceAll(regexp.QuoteMeta(strings.ToLower(pattern)), "_", ".")
 	regExpr = strings.ReplaceAll(regExpr, "%", ".*")
-	regExpr = "^" + regExpr + "$"
+	regExpr = "(?s)^" + regExpr + "$"
 	return regexp.Match(regExpr, []byte(strings.ToLower(fmt.Sprintf("%v", left))))
 }
 
